@@ -166,9 +166,8 @@ def run_pairs(ctx, drv, progs, thorough, tag):
 
     def run_t(ic):
         i, c = ic
-        ka = ['-knobs', c['knobs']] if c['knobs'] else []
-        r = c01.run_case(ctx, drv, '%st%d' % (tag, i), c, extras('t') + ka, verify=False, keep=('sys.ndjson', 'insts.json'))
-        r['knob_args'] = ka
+        r = c01.run_case(ctx, drv, '%st%d' % (tag, i), c, extras('t'), verify=False, keep=('sys.ndjson', 'insts.json'))
+        r['knob_args'] = []
         return r
 
     from concurrent.futures import ThreadPoolExecutor
@@ -184,7 +183,7 @@ def signature(ctx, drv, e, t, d, idx):
     detail = {}
     memdiff = lambda x: 'buffers' in x or 'host_arrays' in x or 'buffer_layout' in x or 'inst_sequences' in x or 'issued' in x
     if c.get('knobs') != SINGLE_CU:
-        one = c01.run_case(ctx, drv, 'onecu%d' % idx, dict(c, knobs=SINGLE_CU), extras('t') + ['-knobs', SINGLE_CU], verify=False)
+        one = c01.run_case(ctx, drv, 'onecu%d' % idx, dict(c, knobs=SINGLE_CU), extras('t'), verify=False)
         if one['obs'] and 'insts' in one['obs']:
             sig['single_cu_platform'] = 'differs' if memdiff(compare(e, one)) else 'agrees'
         else:
@@ -230,7 +229,7 @@ def run(ctx, selftest=False):
                       and t['obs'].get('commands') and not t['obs'].get('hang') and not t['obs'].get('run_panic')), None)
         if stock is None:
             continue
-        twin = c01.run_case(ctx, drv, 'twin_' + gpu, stock['case'], extras('t') + ['-knobs', 'freq=0'], verify=False)
+        twin = c01.run_case(ctx, drv, 'twin_' + gpu, dict(stock['case'], knobs='freq=0'), extras('t'), verify=False)
         a, b = stock['obs'], twin['obs'] or {}
         if a.get('run_end_ps') != b.get('run_end_ps') or a.get('commands') != b.get('commands'):
             raise vlib.Infra('harness platform (platform.go) no longer equals the stock %s platform: end %s vs %s' % (
@@ -314,9 +313,8 @@ def replay(ctx, path):
     rp = json.load(open(path))['replay']
     drv = ctx.go_build('sysrun')
     c = rp['case']
-    e = c01.run_case(ctx, drv, 'rp_e', dict(c, c=emu_class(c['c']['arch'])), extras('e'), verify=False, keep=('insts.json',))
-    ka = ['-knobs', rp['knobs']] if rp.get('knobs') else []
-    t = c01.run_case(ctx, drv, 'rp_t', c, extras('t') + ka, verify=False, keep=('insts.json',))
+    e = c01.run_case(ctx, drv, 'rp_e', dict(c, c=emu_class(c['c']['arch']), knobs=''), extras('e'), verify=False, keep=('insts.json',))
+    t = c01.run_case(ctx, drv, 'rp_t', dict(c, knobs=rp.get('knobs') or c.get('knobs') or ''), extras('t'), verify=False, keep=('insts.json',))
     if c01.classify_quiet(t, verify=False) is not None:
         print('replay: timing run fails:', c01.classify_quiet(t, verify=False))
         return 1
